@@ -201,6 +201,7 @@ type world struct {
 	extraDesc map[string]any
 
 	hlp, obs, tgt *vclient.Client
+	expectClosed  *vclient.Client   // the target of a kick
 	extra         []*vclient.Client // other connected clients (the actors)
 	actors        []*actor
 
@@ -447,6 +448,14 @@ func (w *world) quiesce(more ...*vclient.Client) bool {
 	for _, c := range live(append(w.clients(), more...)) {
 		if !ping(c) && !goneSoon(c) {
 			w.inconclusive("no pong from the server for " + c.ID)
+			return false
+		}
+	}
+	// a bystander whose connection the server dropped (overload) has a stale view
+	for _, c := range []*vclient.Client{w.hlp, w.obs, w.tgt} {
+		if c != nil && c != w.expectClosed && closedNow(c) {
+			_, cerr := c.Closed()
+			w.inconclusive(fmt.Sprintf("the connection of bystander %s was lost (%v)", c.ID, cerr))
 			return false
 		}
 	}
@@ -913,6 +922,9 @@ func (w *world) perform(a *actor, ks kindSpec, tgt *vclient.Client, j job, expec
 	mb, _ := json.Marshal(mm)
 	w.logf("ACTOR %s [%s, model permissions %v] -> %s", a.c.ID, a.state, a.perms, mb)
 
+	if ks.name == "kick" && tgt == w.tgt {
+		w.expectClosed = tgt
+	}
 	tokenKind := ks.name == "maketoken" || ks.name == "edittoken"
 	if tokenKind {
 		tokenMu.Lock()
